@@ -462,7 +462,8 @@ def run(ctx):
     # holding IPs; real FloatingIPPlugin vs Model/Plugin.v + monitors
     import plugincheck
     plugincheck.run(ctx, "C20", PLUGIN_THEOREMS, [], plugincheck.mon_c20_plugin, module="C09p", nrandom=(0, 0), incarnations=False, fixed=False,
-                    extra_scenarios=plugincheck.rejected_reload_scenarios(ctx.rng, ctx) + plugincheck.reload_scenarios(ctx.rng, ctx))
+                    extra_scenarios=plugincheck.rejected_reload_scenarios(ctx.rng, ctx) + plugincheck.reload_scenarios(ctx.rng, ctx) +
+                    plugincheck.attr_reload_scenarios(ctx.rng, ctx))
 
 
 def describe_monitor_failure(o):
